@@ -111,15 +111,18 @@ def _norm(s):
 
 
 class GenLine:
-    __slots__ = ("text", "kind", "fn", "obl", "props", "src_file", "src_line", "canary")
+    __slots__ = ("text", "kind", "fn", "obl", "props", "src_file", "src_line", "canary", "tobl")
 
     def __init__(self, text, kind, fn=None, obl=None, props=None, src_file=None, src_line=None):
         self.text, self.kind, self.fn, self.obl, self.props = text, kind, fn, obl, props or []
         self.src_file, self.src_line = src_file, src_line
         self.canary = False
+        m = TOBL_RE.search(text) if kind == "inj" else None
+        self.tobl = m.group(1) if m else None
 
 
 OBL_RE = re.compile(r"//\s*@obl\s+([\w.\-]+)\s*:\s*([C0-9 ]+?)\s*$")
+TOBL_RE = re.compile(r"//\s*@tobl\s+([\w.\-]+)\s*$")
 
 
 def _mk_injected(lines, fn_id):
@@ -699,10 +702,10 @@ def generate(template, out_path, canary=False):
         f.write("\n".join(g.text for g in gen) + "\n")
     linemap = []
     for n, g in enumerate(gen, 1):
-        if g.kind != "tmpl" or g.obl:
+        if g.kind != "tmpl" or g.obl or g.tobl:
             linemap.append({"line": n, "kind": g.kind, "fn": g.fn, "obl": g.obl, "props": g.props,
                             "src": [g.src_file, g.src_line] if g.src_file else None,
-                            "canary": "@canary" in g.text})
+                            "canary": "@canary" in g.text, "tobl": g.tobl})
     # function line ranges in the generated file
     ranges = {}
     for n, g in enumerate(gen, 1):
